@@ -1,163 +1,18 @@
 /-
-  Props/SrcFacts.lean — obligations that tie the hand-written line model to facts REGENERATED from
-  the Go source on every run (Generated/Facts.lean, produced by tools/extract with go/ast).
-  If the source drops a dispatch key, renames a gate literal, re-wires a flag or uses the Atlas
-  private key in a new way, one of these `decide`d statements stops checking.
+  Props/SrcFacts.lean — umbrella over the source-fact obligations (Props/Facts/*): statements that tie the
+  hand-written model to facts REGENERATED from the Go source on every run (Generated/Facts.lean, produced by
+  tools/extract with go/ast).  One module per obligation: if the source drops a dispatch key, renames a gate
+  literal, re-wires a flag or uses the Atlas private key in a new way, that obligation's module stops
+  building and only the properties that list it are affected.
 -/
-import Anonymongo.Generated.Facts
-import Anonymongo.Model.Line
-namespace Anonymongo
-open Generated
-
-def sameSet {α} [BEq α] (a b : List α) : Bool := a.all b.contains && b.all a.contains
-
-def fnQV : Str := "redactQueryValues".toList
-def fnAV : Str := "redactArrayValues".toList
-def fnPS : Str := "redactPipelineStage".toList
-
-/-- the dispatch of `redactOperation` as Model/Line.lean (`cmdVal`) has it -/
-def modelDispatch : List (Str × List Str × Str) :=
-  qKeysObj.map (fun k => (k, [fnQV], [])) ++
-  uKeysObjOrArr.map (fun k => (k, [fnAV, fnQV], [])) ++
-  aKeysArr.map (fun k => (k, [fnAV], [])) ++
-  [(sDocument, [fnQV], sInsert), (sDocuments, [fnAV], sInsert), (sPipeline, [fnPS], [])]
-
-/-- **the model's dispatch is the source's dispatch**: same keys, same walkers, same guard -/
-theorem Facts_dispatch : sameSet Facts.dispatch modelDispatch = true := by decide +kernel
-
-/-- operations one level down, as `Ctx.cmdEntry` / `zoneState` have them: `explain` (always) and `ops`
-    (in a `bulkWrite`) are handed to `redactOperation`; the command itself unconditionally (the
-    translator refuses to run otherwise) -/
-theorem Facts_nested_ops : sameSet Facts.nestedOps
-    [(sExplain, ["redactOperation".toList], []), (sOps, ["redactOperation".toList], sBulkWrite)] = true := by decide +kernel
-
-/-- the three command attributes -/
-theorem Facts_cmdKeys : sameSet Facts.attrCmdKeys cmdKeys = true := by decide +kernel
-
-/-- the line gate -/
-theorem Facts_gate : (Facts.gateComponents == gateComponents) = true ∧ (Facts.gateMessages == [sSlowQuery]) = true := by
-  decide +kernel
-
-/-- the only things the code does with the Atlas private key: receive it as a parameter, declare / bind
-    it to its flag, copy it between the flag variable, the environment fallback and the local, test it
-    for emptiness, pass it on to the three Atlas functions, and put it into `digest.Transport.Password` -/
-def allowedPrivKinds : List Str :=
-  ["param", "declaration", "flagBinding", "assign", "emptyTest", "passThrough", "digestPassword"].map String.toList
-
-theorem Facts_priv : (Facts.privUses.all fun u => allowedPrivKinds.contains u.1) = true ∧
-    (Facts.privUses.any fun u => u.1 == "digestPassword".toList) = true := by decide +kernel
-
-/-- flag → variable → setter wiring of the value-redaction options: every setter is called
-    unconditionally (nesting depth 0) with the variable its flag is bound to -/
-def expectedWiring : List (String × String × String × String) := [
-  ("replacement", "r", "replacement", "SetRedactedString"),
-  ("redactNumbers", "n", "redactNumbers", "SetRedactNumbers"),
-  ("redactBooleans", "b", "redactBooleans", "SetRedactBooleans"),
-  ("redactIPs", "i", "redactIPs", "SetRedactIPs"),
-  ("redactNamespaces", "w", "redactNamespaces", "SetRedactNamespaces"),
-  ("redactFieldNames", "f", "eagerRedactionPaths", "SetEagerRedactionPaths"),
-  ("redactFieldsRegexp", "z", "redactedFieldsRegexp", "SetRedactedFieldsRegexp"),
-  ("atlasLogStartDate", "s", "atlasLogStartDate", "SetAtlasLogStartDate"),
-  ("atlasLogEndDate", "e", "atlasLogEndDate", "SetAtlasLogEndDate")]
-
-theorem Facts_wiring : (expectedWiring.all fun w =>
-    Facts.flags.contains (w.1.toList, w.2.1.toList, w.2.2.1.toList) &&
-    Facts.setters.contains (w.2.2.2.toList, w.2.2.1.toList, 0)) = true := by decide +kernel
-
-/-! ### program state: the model treats every function on the redaction path as a pure function of
-    (line, configuration).  The source facts below are what that rests on: the package-level variables
-    are the operator tables, three compiled regular expressions, the option variables and one
-    write-only side table; option variables are written by their setters only; nothing else is ever
-    assigned, and no `init` function runs before the flags are parsed. -/
-
-def expectedGlobals : List String := [
-  "AggregationOperators", "CoreOperators", "OperatorMapDefs", "RedactedFieldMapping", "SearchAggregationOperators",
-  "SearchOperators", "TopLevelSearchOperators", "atlasLogEndDate", "atlasLogStartDate", "defaultLogDuration",
-  "eagerRedactionPaths", "emailRegex", "encryptionKey", "geoJSON", "ixscanRegex", "redactBooleans", "redactIPs",
-  "redactNamespaces", "redactNumbers", "redactedFieldsRegexp", "redactedString", "shouldEncrypt", "version"]
-
-/-- **no state beyond the known variables**: a cache, memo table, counter or reusable buffer at package
-    level would be a new name here -/
-theorem Facts_globals : sameSet Facts.globals (expectedGlobals.map String.toList) = true := by decide +kernel
-
-/-- methods that only read their receiver (ordered-map lookup, regular-expression matching) -/
-def readOnlyMethods : List String :=
-  ["method:Get", "method:MatchString", "method:FindAllStringSubmatch", "method:ReplaceAllStringFunc"]
-
-def expectedWriters : List (String × String) := [
-  ("redactedString", "SetRedactedString"), ("redactNumbers", "SetRedactNumbers"), ("redactBooleans", "SetRedactBooleans"),
-  ("redactIPs", "SetRedactIPs"), ("redactNamespaces", "SetRedactNamespaces"), ("eagerRedactionPaths", "SetEagerRedactionPaths"),
-  ("redactedFieldsRegexp", "SetRedactedFieldsRegexp"), ("encryptionKey", "SetEncryptionKey"), ("shouldEncrypt", "SetShouldEncrypt"),
-  ("atlasLogStartDate", "SetAtlasLogStartDate"), ("atlasLogEndDate", "SetAtlasLogEndDate"),
-  ("atlasLogStartDate", "GetStartAndEndDates"), ("atlasLogEndDate", "GetStartAndEndDates"),
-  ("RedactedFieldMapping", "HashName"), ("version", "main")]
-
-/-- **who may change what**: every assignment to (or address-taking / mutating call on) a package-level
-    variable is one of the listed (variable, function) pairs: each option variable is written by its own
-    setter and by nothing else (in particular no setter writes a second option), the operator tables
-    and regular expressions are only read, the side table is written by `HashName` only -/
-theorem Facts_writes : (Facts.globalWrites.all fun w =>
-    (readOnlyMethods.map String.toList).contains w.2.2 ||
-      (w.2.2 == "assign".toList && (expectedWriters.map fun p => (p.1.toList, p.2.toList)).contains (w.1, w.2.1))) = true := by
-  decide +kernel
-
-/-- the pseudonym side table is write-only: its single occurrence in the whole program is the
-    assignment inside `HashName` (so a pseudonym cannot depend on earlier calls) -/
-theorem Facts_mapping_write_only :
-    (Facts.globalRefs.filter fun r => r.1 == "RedactedFieldMapping".toList) = [("RedactedFieldMapping".toList, "HashName".toList, 1)] := by
-  decide +kernel
-
-/-- no `init` function; the only package-level initialisers that call functions build the operator tables -/
-theorem Facts_inits : (Facts.inits.all fun i => i.take 17 == "operators.go:var ".toList) = true := by decide +kernel
-
-/-- **configuration footprint**: which function reads which option variable / table — the dependencies the
-    model gives the corresponding definitions (`redactScalar` reads numbers/booleans/regexp/replacement,
-    `redactString` the key and the encrypt switch, `RedactMongoLog` IPs/namespaces/eager paths,
-    `HashName` the replacement, …) -/
-def expectedFootprint : List (String × String) := [
-  ("AggregationOperators", "<package initialiser operators.go>"), ("AggregationOperators", "getOp"),
-  ("CoreOperators", "getOp"), ("CoreOperators", "redactArrayValuesWithKey"), ("CoreOperators", "redactPipelineStage"),
-  ("CoreOperators", "redactQueryValues"), ("CoreOperators", "traverseMapPath"), ("OperatorMapDefs", "traverseMapPath"),
-  ("RedactedFieldMapping", "HashName"), ("SearchAggregationOperators", "getOp"),
-  ("SearchOperators", "<package initialiser operators.go>"), ("SearchOperators", "getOp"), ("SearchOperators", "traverseMapPath"),
-  ("TopLevelSearchOperators", "isInSearchStage"),
-  ("atlasLogEndDate", "GetStartAndEndDates"), ("atlasLogEndDate", "SetAtlasLogEndDate"),
-  ("atlasLogStartDate", "GetStartAndEndDates"), ("atlasLogStartDate", "SetAtlasLogStartDate"),
-  ("defaultLogDuration", "GetStartAndEndDates"),
-  ("eagerRedactionPaths", "RedactMongoLog"), ("eagerRedactionPaths", "SetEagerRedactionPaths"),
-  ("emailRegex", "IsEmail"), ("encryptionKey", "SetEncryptionKey"), ("encryptionKey", "redactString"),
-  ("geoJSON", "<package initialiser operators.go>"),
-  ("ixscanRegex", "ParsePlanSummary"), ("ixscanRegex", "redactFieldNamesFromPlanSummary"),
-  ("redactBooleans", "SetRedactBooleans"), ("redactBooleans", "redactScalarValue"),
-  ("redactIPs", "RedactMongoLog"), ("redactIPs", "SetRedactIPs"),
-  ("redactNamespaces", "RedactMongoLog"), ("redactNamespaces", "SetRedactNamespaces"), ("redactNamespaces", "redactPipelineStage"),
-  ("redactNumbers", "SetRedactNumbers"), ("redactNumbers", "redactScalarValue"),
-  ("redactedFieldsRegexp", "SetRedactedFieldsRegexp"), ("redactedFieldsRegexp", "augmentOp"),
-  ("redactedFieldsRegexp", "isRedactableFieldPatternInArray"), ("redactedFieldsRegexp", "redactArrayValuesWithKey"),
-  ("redactedFieldsRegexp", "redactScalarValue"),
-  ("redactedString", "HashName"), ("redactedString", "SetRedactedString"), ("redactedString", "redactScalarValue"),
-  ("shouldEncrypt", "SetShouldEncrypt"), ("shouldEncrypt", "redactString"), ("version", "main")]
-
-theorem Facts_footprint :
-    sameSet (Facts.globalRefs.map fun r => (r.1, r.2.1)) (expectedFootprint.map fun p => (p.1.toList, p.2.toList)) = true := by
-  decide +kernel
-
-/-! ### the shape of the Atlas requests and of the per-host file names (C16, C20) -/
-
-/-- the two request templates (cluster description; one host's log for a window: `endDate` / `startDate` as given), the
-    literal request headers, the temporary-file pattern and the `<outputFile>.<i>` pattern — and nothing else: in particular
-    no `Authorization` / key-bearing header is set by the repository's own code and no `SetBasicAuth` call exists -/
-def expectedAtlasLits : List (String × String × String) := [
-  ("sprintf", "getAtlasClusterInfo", "%s/api/atlas/v2/groups/%s/clusters/%s"),
-  ("header", "getAtlasClusterInfo", "Accept: application/vnd.atlas.2025-03-12+json"),
-  ("sprintf", "downloadClusterLogsForHost", "%s/api/atlas/v2/groups/%s/clusters/%s/logs/mongodb.gz?endDate=%d&startDate=%d"),
-  ("header", "downloadClusterLogsForHost", "Accept: application/vnd.atlas.2023-02-01+gzip"),
-  ("header", "downloadClusterLogsForHost", "Content-Type: application/gzip"),
-  ("sprintf", "downloadClusterLogsForHost", "mongod_%s_%d_%d_*.log.gz"),
-  ("sprintf", "main", "%s.%d")]
-
-theorem Facts_atlas_requests :
-    (Facts.atlasLits == expectedAtlasLits.map fun p => (p.1.toList, p.2.1.toList, p.2.2.toList)) = true := by
-  decide +kernel
-
-end Anonymongo
+import Anonymongo.Props.Facts.Dispatch
+import Anonymongo.Props.Facts.CmdKeys
+import Anonymongo.Props.Facts.Gate
+import Anonymongo.Props.Facts.Priv
+import Anonymongo.Props.Facts.Wiring
+import Anonymongo.Props.Facts.Globals
+import Anonymongo.Props.Facts.Writes
+import Anonymongo.Props.Facts.Mapping
+import Anonymongo.Props.Facts.Inits
+import Anonymongo.Props.Facts.Footprint
+import Anonymongo.Props.Facts.AtlasReq
